@@ -18,6 +18,8 @@ import (
 	"strconv"
 	"strings"
 	"sync"
+
+	"verif/harness/common"
 	"time"
 
 	ldlmgrpc "github.com/imoore76/ldlm/net/grpc"
@@ -94,6 +96,7 @@ type side struct {
 }
 
 func newSide(withRest bool, sessionTimeout time.Duration) (*side, error) {
+	wdReset()
 	cfg := &server.LockServerConfig{Shards: 4, LockGcInterval: 1000 * time.Hour, LockGcMinIdle: 5 * time.Minute, DefaultLockTimeout: 10 * time.Minute}
 	cfg.IPCSocketFile = ""
 	cfg.StateFile = ""
@@ -166,6 +169,7 @@ func (s *side) do(method, path string, cookie *string, body string) (r httpResp)
 		req.Header.Set("Cookie", cookieName+"="+*cookie)
 	}
 	rec := httptest.NewRecorder()
+	wdNote(method + " " + path + " " + body)
 	func() {
 		defer func() {
 			if p := recover(); p != nil {
@@ -174,6 +178,7 @@ func (s *side) do(method, path string, cookie *string, body string) (r httpResp)
 		}()
 		s.srv.Handler.ServeHTTP(rec, req)
 	}()
+	wdTick()
 	r.Code, r.Body = rec.Code, rec.Body.String()
 	for _, c := range rec.Result().Cookies() {
 		if c.Name == cookieName {
@@ -220,4 +225,39 @@ func optS(p *int32) string {
 		return "-"
 	}
 	return strconv.Itoa(int(*p))
+}
+
+
+// ---- watchdog (common.Watchdog): the REST calls of the current history, for the replay of a call
+// that never returns
+
+var (
+	wdTick  = func() {}
+	wdMu    sync.Mutex
+	wdCalls []string
+)
+
+func wdNote(call string) {
+	wdMu.Lock()
+	if len(wdCalls) > 200 {
+		wdCalls = wdCalls[100:]
+	}
+	wdCalls = append(wdCalls, call)
+	wdMu.Unlock()
+}
+
+func wdReset() {
+	wdMu.Lock()
+	wdCalls = nil
+	wdMu.Unlock()
+	wdTick()
+}
+
+// startWatchdog: call once per test function, outside any synctest bubble.
+func startWatchdog(res *common.Result) {
+	wdTick = common.Watchdog(res, common.Prop(), "rest:deadlock:call-never-returns", 60*time.Second, func() any {
+		wdMu.Lock()
+		defer wdMu.Unlock()
+		return map[string]any{"rest_calls_of_the_current_history_last_one_never_returned_or_the_snapshot_after_it": append([]string{}, wdCalls...)}
+	})
 }
